@@ -56,6 +56,11 @@ type FrameHeader struct {
 	payload   []byte
 
 	fr Frame
+
+	// next is a frame that has to follow this one on the wire with nothing in
+	// between: the CONTINUATION of a header block. Whoever writes the frame
+	// writes, and releases, the chain.
+	next *FrameHeader
 }
 
 // AcquireFrameHeader gets a FrameHeader from pool.
@@ -85,6 +90,7 @@ func (f *FrameHeader) Reset() {
 	f.length = 0
 	f.maxLen = defaultMaxLen
 	f.fr = nil
+	f.next = nil
 	f.payload = f.payload[:0]
 }
 
